@@ -5,6 +5,7 @@ import glob
 import itertools
 import json
 import os
+import re
 
 import common
 from common import driver
@@ -168,7 +169,10 @@ def norm(o):
     return "crash" if o.startswith("crash") else o
 
 
-def judge(m, val, wout, gf, history=True):
+NOWAIT_OPENING = re.compile(r"^\s*!\$omp\s+single\b[^\n]*\bnowait\b", re.M | re.I)
+
+
+def judge(m, val, wout, gf, history=True, code=None):
     """The property on one tree.  m: model/spec verdicts; val: real validate sweep; wout: real writer
     outcome; gf: None or (ok, errors).  Returns (verdict, reason): verdict in ok | known | violation."""
     if wout.startswith("crash") and history:
@@ -184,7 +188,9 @@ def judge(m, val, wout, gf, history=True):
     if not m["mix"]:
         return "violation", ("the writer emitted OpenMP directives nested in an OpenACC region or vice versa "
                              "(C10.mixOk = false)")
-    if not m["nowait"]:
+    if not m["nowait"] and (code is None or NOWAIT_OPENING.search(code)):
+        # the finding is about the emitted TEXT: `nowait` on the opening `!$omp single` line (with the
+        # candidate fix C10-single-nowait-end-line the clause moves to `!$omp end single`: not a finding)
         return "known", "C10-single-nowait-placement"
     if gf is not None and not gf[0]:
         return "violation", "gfortran -fopenmp -fopenacc rejects the emitted code: %s" % "; ".join(gf[1])
@@ -371,29 +377,37 @@ def cross_routine_histories(all_pairs, seed_rng):
 
 def run(chk):
     thorough = chk.tier == "thorough"
-    chk.cov["rule"] = ("trees = (a) every prefix of random histories (<= 8 steps) of OMP/ACC loop, region, target, "
-                       "taskloop, task, teams, enter-data, update, routine, declare-target and taskwait transformations on "
-                       "generated programs (nests of depth 1-3, perfect/imperfect/triangular, a few empty loops, "
-                       "statements and if-blocks between loops), (b) random forests over all modelled node kinds "
-                       "built by direct construction; every applied transformation step is also replayed through "
-                       "C10.applyOp; non-trivial = contains at least one directive; distinct by canonical JSON of "
-                       "the abstract tree")
+    chk.cov["rule"] = ("trees = MODULES (1-3 routines, one forest per routine): (a) every prefix of random histories (<= 8 "
+                       "steps, each step on a randomly chosen routine) of OMP/ACC loop, region, target, taskloop, task, teams, "
+                       "enter-data, update, routine, declare-target and taskwait transformations on generated modules / bare "
+                       "subroutines (nests of depth 1-3, perfect/imperfect/triangular, a few empty loops, statements, "
+                       "CodeBlocks (write), calls to earlier routines and if-blocks between loops), (b) the systematic "
+                       "cross-routine family: two-step histories [X on routine p, Y on routine 1-p] over the 19 "
+                       "transformation shapes (all pairs with a routine-level transformation in quick, all 361 ordered pairs "
+                       "in thorough), (c) random forests / random modules over all modelled node kinds built by direct "
+                       "construction; every applied transformation step is replayed through C10.applyCOp on the WHOLE "
+                       "module (frame: other routines unchanged); non-trivial = contains at least one directive; distinct "
+                       "by canonical JSON of the abstract module")
     chk.assumptions += [
         "MODE: the Lean model is of the fixed code (/repo fix: commits d0e6145, 053c279, 26670ce, f63f3e2, 3023462, "
         "b01d4e9)",
         "specValid is my formalisation of OpenMP 4.5 section 2.17 / 2.7.1, OpenMP 5.0 loop-region rule and the "
         "OpenACC compute-construct nesting rules, plus the property's own clauses; gfortran 12 (-c, not "
         "-fsyntax-only: gcc issues nesting diagnostics in the middle end) is used as a second oracle",
-        "node kinds outside the modelled set (CodeBlock, PSyData, halo exchanges, kernels) are not generated; of the "
+        "node kinds outside the modelled set (PSyData nodes, non-statement CodeBlocks, if-blocks with else, halo "
+        "exchanges, kernels) are not generated (a tree containing one is skipped and counted as unmodelled); of the "
         "clause children only collapse and the nowait of single are modelled (the duplicate-nogroup check of "
         "taskloop, grainsize/num_tasks, if_present, schedule, data-sharing clauses are not)",
+        "routine-level facts are per routine (C10.envOf r); ACCEnterDataDirective's lowering-time refusal (no compute "
+        "region in its routine) is a writer refusal outside the model (the writer may only be stricter than the sweep)",
         "atomic statement form: `astmt` is decided by an independent syntactic reading of the OpenMP/OpenACC "
         "update forms in the harness; only `x = x op e` shapes are generated",
         "the transformations are modelled by their shape only (C10.applyOp): which nodes are wrapped/inserted and the "
         "collapse validation of ParallelLoopTrans; their other refusals are not modelled and not needed"]
     chk.cov["trusted_base"] = ["Lean 4.33.0 kernel", "axioms propext/Classical.choice/Quot.sound only (audited)",
                                "harness/props/c10_real.py abstraction PSyIR -> Forest and builder Forest -> PSyIR",
-                               "translator gen() (truth table of the real checks on the catalogue)",
+                               "translator gen() (truth tables of the real checks on the tree and module catalogues; "
+                               "c10_introspect.py: Directive subclasses and directive-creating transformations)",
                                "gfortran 12 as compile oracle"]
     chk.lean(gen=gen)
 
@@ -527,7 +541,7 @@ def run(chk):
                 gf = R.gfortran(it.code)
                 gf_budget -= 1
                 dist["gfortran_runs"] += 1
-        verdict, why = judge(m, it.val, it.wout, gf, it.origin["kind"] == "history")
+        verdict, why = judge(m, it.val, it.wout, gf, it.origin["kind"] == "history", it.code)
         if verdict == "known":
             dist["known_nowait"] += 1
             if gf is not None and not gf[0]:
@@ -575,7 +589,7 @@ def run(chk):
                     todo.append(it)
         for it, m in zip(todo, model_eval([it.forest for it in todo])):
             gf = R.gfortran(it.code) if m["core"] and m["rect"] and m["mix"] else None
-            verdict, why = judge(m, it.val, it.wout, gf, False)
+            verdict, why = judge(m, it.val, it.wout, gf, False, it.code)
             vclass = m["first_bad"] if m["first_bad"] != "-" else why[:40]
             if verdict == "violation" and vclass not in violations and len(violations) < 8:
                 violations[vclass] = dict(it.origin, abstract=it.forest, expected=why, model=m,
@@ -617,7 +631,7 @@ def replay_witness(payload, quiet=False):
         return "none"
     m = model_eval([it.forest])[0]
     gf = R.gfortran(it.code) if it.wout == "accept" else None
-    verdict, why = judge(m, it.val, it.wout, gf, payload.get("kind") == "history")
+    verdict, why = judge(m, it.val, it.wout, gf, payload.get("kind") == "history", it.code)
     if verdict == "ok" and norm(it.val) != m["writer"]:
         verdict, why = "broken", "validate sweep says %s, Lean model says %s" % (it.val, m["writer"])
     if not quiet:
